@@ -35,6 +35,11 @@ type harness struct {
 	rejected map[string]bool // tables on which a statement was rejected for a constraint
 	nontriv  bool
 	stop     bool // a known finding's class was reached where it cannot be avoided: the case ends
+
+	holderCtr   int
+	noVerify    bool // holders are open: the harness runs no query of its own
+	ddlBoost    bool // transactions of the window are mostly autocommit DDL
+	ddlAccepted int
 }
 
 func newHarness(rt *rapid.T, c *vk.Case) *harness {
@@ -191,6 +196,9 @@ func sameValue(c col, a V, aok bool, b V, bok bool) bool {
 // verify evaluates the invariants of the property on the committed state and
 // compares it with the reference copy.
 func (h *harness) verify(when string) {
+	if h.noVerify {
+		return
+	}
 	for _, t := range h.m.tables {
 		q := "SELECT * FROM " + t.name
 		res, err := sqlgen.QueryEngine(h.db.Eng, nil, q, nil)
@@ -424,6 +432,9 @@ func (h *harness) checkAccepted(s *stmt, o *outcome, where string) {
 func (h *harness) runTx(later map[string]*[]index, allowDDL bool) {
 	rt := h.rt
 	form := weighted(rt, "txForm", []wc{{"auto", 40}, {"interactive", 32}, {"oneshot", 20}, {"newtx", 8}})
+	if h.ddlBoost && chance(rt, "windowAuto", 85) {
+		form = "auto"
+	}
 	n := 1
 	if form != "auto" {
 		n = rapid.IntRange(2, 5).Draw(rt, "txLen")
@@ -458,7 +469,11 @@ func (h *harness) runTx(later map[string]*[]index, allowDDL bool) {
 	for i := 0; i < n && !aborted; i++ {
 		t := work.tables[rapid.IntRange(0, len(work.tables)-1).Draw(rt, "table")]
 		var s *stmt
-		if allowDDL && form != "oneshot" && chance(rt, "ddlInTx", map[string]int{"auto": 14, "interactive": 10, "newtx": 10}[form]) {
+		ddlPct := map[string]int{"auto": 14, "interactive": 10, "newtx": 10}[form]
+		if h.ddlBoost && form == "auto" {
+			ddlPct = 75
+		}
+		if allowDDL && form != "oneshot" && chance(rt, "ddlInTx", ddlPct) {
 			s = h.genDDL(rt, t, later[t.name], form != "auto")
 		} else {
 			s = h.genDML(rt, t, opts)
@@ -548,6 +563,12 @@ func (h *harness) runTx(later map[string]*[]index, allowDDL bool) {
 		}
 		if o.resync {
 			resyncTables = append(resyncTables, s.tbl)
+		}
+		if s.kind.ddl() && form == "auto" {
+			h.ddlAccepted++
+			if s.kind == kCreateIndex && s.ix.unique && h.noVerify {
+				h.c.Label("unique-index-created-while-a-holder-is-open")
+			}
 		}
 		if o.expectErr != "" {
 			h.c.Label("accepted-where-engine-documents-refusal")
